@@ -124,6 +124,14 @@ CHECKS.update({
    ref="DESIGN.md §4 C14"),
 })
 
+CHECKS.update({
+ "C15": dict(
+   technique="property-based testing (proptest): reference bridge predicate written from the statement plus an independent reference remapper for the inherited name; exact comparison of the produced mapping set with input + expected entries; differential on the detected pairs",
+   text="Generated-input exploration: main jars of five classes with generated delegate/synthetic method pairs covering true bridges (flagged, unflagged-but-compatible, covariant/erased/super-typed positions, delegate in the super class) and near misses (private/static/final, arity, unrelated or primitive types, zero / two distinct calls, non-synthetic), with calamus and named mapping sets that name or omit the classes, bridges (in their class or a super class) and delegates; /repo/src/specialized_methods/mod.rs is compiled into the harness unchanged. The detected pairs and the produced mappings must equal the reference exactly. Holds on everything explored.",
+   note="Trusted: harness reference predicate and reference remapper (C06's), mapping model. Where a super type of the delegate's type lies outside the jar the statement does not decide compatibility: either outcome accepted (counted). At most one bridge per delegate and class.",
+   ref="DESIGN.md §4 C15"),
+})
+
 NOT_YET = {
 }
 
